@@ -26,8 +26,8 @@ from harness import common
 from harness.common import zlit, zlist
 
 GEN_MODULES = ['inject']
-MODEL_TARGETS = ['model/M_Inject.vo']
-PROOF_TARGETS = ['proofs/P_Inject.vo', 'proofs/P_InjectR.vo', 'proofs/P_InjectMC.vo', 'proofs/P_InjectExt.vo']
+MODEL_TARGETS = ['model/M_Inject.vo', 'model/M_InjectCfg.vo']
+PROOF_TARGETS = ['proofs/P_Inject.vo', 'proofs/P_InjectR.vo', 'proofs/P_InjectMC.vo', 'proofs/P_InjectExt.vo', 'proofs/P_InjectCfg.vo']
 LEVEL = 'proof'
 RULE = ('A: totals 0..50, 2..6 dataset weights a_j/D (dyadic and decimal D, tiny and zero weights, exact halves), '
         'every combination of correction draws when there are <= 48, else random ones, plus real RandomState seeds; '
@@ -53,7 +53,7 @@ TRUSTED = [
 ]
 
 IMPORTS = ('From Coq Require Import ZArith List. Import ListNotations. Open Scope Z_scope.\n'
-           'From Sky Require Import Result PyList M_Inject.\n')
+           'From Sky Require Import Result PyList M_Inject M_InjectCfg.\n')
 
 SD_BITS = 75            # sin(dec) values are scaled by 2**75
 ANG_BITS = 30           # relocated coordinates are compared on a 2**-30 grid
@@ -1628,6 +1628,147 @@ def run_sites(ctx, exprs, checks):
                           case={'part': 'E'}, predicate='construction / calls succeed on legal inputs')
 
 
+# =========================================================================== part F: the validity-range configuration
+def cfg_make_arg(spec):
+    """spec: ('list'|'tuple'|'dict'|'int', [[(key_kind, val_kind), ...], ...]) -> the python argument"""
+    kind, dicts = spec
+    out = []
+    for d in dicts:
+        dd = {}
+        for n_, (kk, vk) in enumerate(d):
+            key = f'f{n_}' if kk == 'str' else (n_ + 5)
+            val = {'t2': (0.0, 1.0), 't0': (), 't1': (0.5,), 't3': (0.0, 1.0, 2.0), 'list2': [0.0, 1.0], 'float': 0.5}[vk]
+            dd[key] = val
+        out.append(dd)
+    return {'list': out, 'tuple': tuple(out), 'dict': {i: d for i, d in enumerate(out)}, 'int': 7}[kind]
+
+
+def cfg_term_dicts(dicts):
+    def ent(kk, vk):
+        ln = {'t2': 2, 't0': 0, 't1': 1, 't3': 3, 'list2': 2, 'float': 0}[vk]
+        return (f"{{| r_key_str := {'true' if kk == 'str' else 'false'}; "
+                f"r_val_tuple := {'true' if vk.startswith('t') else 'false'}; r_len := {ln} |}}")
+    return '[' + '; '.join('[' + '; '.join(ent(*e) for e in d) + ']' for d in dicts) + ']'
+
+
+def cfg_wf(spec):
+    """independent reading of the documented contract"""
+    kind, dicts = spec
+    return kind == 'list' and all(kk == 'str' and vk == 't2' for d in dicts for (kk, vk) in d)
+
+
+def cfg_gen_spec(rng, n_ds):
+    kind = rng.choice(['list'] * 8 + ['tuple', 'dict', 'int'])
+    n = n_ds if rng.random() < 0.8 else rng.choice([0, n_ds + 1, max(0, n_ds - 1)])
+    bad = rng.random() < 0.45
+    dicts = []
+    for _ in range(n):
+        d = [('str', 't2') for _ in range(rng.choice([0, 1, 1, 2, 3]))]
+        if bad and d and rng.random() < 0.6:
+            d[rng.randrange(len(d))] = (rng.choice(['str', 'str', 'int']), rng.choice(['t2', 't0', 't1', 't3', 'list2', 'float']))
+        dicts.append(d)
+    return (kind, dicts)
+
+
+def cfg_one(ctx, env, st, gen, spec, mode, exprs, checks):
+    """mode 'set': the setter on an existing generator; mode 'init': the constructor"""
+    site = 'MCMultiDatasetSignalGenerator.valid_event_field_ranges_dict_list'
+    n_ds = len(st.case['dss'])
+    case = {'part': 'F', 'mode': mode,
+            'spec': None if spec is None else [spec[0], [[list(e) for e in d] for d in spec[1]]], 'mc_case': st.case}
+    ctx.case({'part': 'F', 'mode': mode, 'spec': case['spec']})
+    ctx.count('F:' + mode + ':' + ('default-None' if spec is None else
+                                   ('wf' if cfg_wf(spec) and (mode == 'set' or len(spec[1]) == n_ds) else 'malformed:' + spec[0])))
+    canon = lambda dl: [[[isinstance(k, str), isinstance(v, tuple), len(v) if hasattr(v, '__len__') else 0]   # noqa: E731
+                         for k, v in d.items()] for d in dl]
+    if mode == 'set':
+        old = [{'q': (0.0, 50.0)}] + [dict() for _ in range(n_ds - 1)]
+        gen.valid_event_field_ranges_dict_list = old
+        arg = cfg_make_arg(spec)
+        try:
+            gen.valid_event_field_ranges_dict_list = arg
+            got = ['Ok']
+        except Exception as ex:  # noqa: BLE001
+            got = ['Err', type(ex).__name__]
+        stored = gen.valid_event_field_ranges_dict_list
+        got.append('new' if stored is arg else ('old' if stored is old else 'other'))
+        wf = cfg_wf(spec)
+        if (got[0] == 'Ok') != wf or got[-1] != ('new' if wf else 'old') or (not wf and got[1] not in ('TypeError', 'ValueError')):
+            ctx.violation(site, 'setter-accepts-or-corrupts', f'{got} for a {"well-formed" if wf else "malformed"} value',
+                          case=case, impl=got, predicate='accepted iff list of {str: 2-tuple} dicts; a rejected value changes nothing')
+        gen.valid_event_field_ranges_dict_list = old
+        oldt = '[[{| r_key_str := true; r_val_tuple := true; r_len := 2 |}]' + ''.join('; []' for _ in range(n_ds - 1)) + ']'
+        exprs.append(f"let r := set_ranges {'true' if spec[0] == 'list' else 'false'} {oldt} {cfg_term_dicts(spec[1])} in "
+                     f"(snd r, map (map (fun e => (r_key_str e, r_val_tuple e, r_len e))) (fst r))")
+        want_stored = canon(arg) if got[-1] == 'new' else (canon(old) if got[-1] == 'old' else 'other')
+        checks.append(('cfg', case, [got[:-1], want_stored]))
+    else:
+        b = build_mc(env, st.case)
+        arg = None if spec is None else cfg_make_arg(spec)
+        try:
+            g2 = env.MCMultiDatasetSignalGenerator(
+                cfg=env.cfg, shg_mgr=env.SourceHypoGroupManager(b['shgs']), dataset_list=env.dsl[:n_ds],
+                data_list=b['datal'], valid_event_field_ranges_dict_list=arg, ds_sig_weight_factors_service=env.StubW2())
+            got = ['Ok', canon(g2.valid_event_field_ranges_dict_list)]
+        except Exception as ex:  # noqa: BLE001
+            got = ['Err', type(ex).__name__]
+        wf = spec is None or (cfg_wf(spec) and len(spec[1]) == n_ds)
+        if (got[0] == 'Ok') != wf or (wf and got[1] != ([[] for _ in range(n_ds)] if spec is None else canon(arg))):
+            ctx.violation('MCMultiDatasetSignalGenerator.__init__', 'ranges-config-accepted-or-lost',
+                          f'{str(got)[:200]} for a {"well-formed" if wf else "malformed"} configuration', case=case, impl=got,
+                          predicate='constructed iff None or a list of n_datasets well-formed dicts, stored as given')
+        a_t = 'None' if spec is None else f"(Some ({'true' if spec[0] == 'list' else 'false'}, {cfg_term_dicts(spec[1])}))"
+        exprs.append(f'match init_ranges {a_t} {n_ds} with Ok r => Ok (map (map (fun e => (r_key_str e, r_val_tuple e, r_len e))) r) '
+                     f'| Err e => Err e end')
+        checks.append(('cfg-init', case, got))
+
+
+def run_config(ctx, exprs, checks, only=None):
+    import random as _random
+    rng = _random.Random(ctx.seed * 31337 + 18)
+    env = McEnv()
+    st = None
+    for cs in range(4000, 4100):
+        c_ = gen_mc_case(_random.Random(cs), small=True)
+        if len(c_['dss']) >= 2:
+            st = McSetup(env, c_, 0)
+            if st.ok:
+                break
+    if st is None or not st.ok:
+        ctx.broken.append({'kind': 'harness', 'error': 'no base generator for the configuration stream'})
+        return
+    gen, _b = st.fresh()
+    n_ds = len(st.case['dss'])
+    if only is not None:
+        sp = only['spec']
+        spec = None if sp is None else (sp[0], [[tuple(e) for e in d] for d in sp[1]])
+        cfg_one(ctx, env, st, gen, spec, only['mode'], exprs, checks)
+        return
+    fixed = [('list', [[('str', 't2')]] + [[] for _ in range(n_ds - 1)]), ('list', [[('int', 't2')]] + [[] for _ in range(n_ds - 1)]),
+             ('list', [[('str', 'list2')]] + [[] for _ in range(n_ds - 1)]), ('list', [[] for _ in range(n_ds - 1)] + [[('str', 't3')]]),
+             ('list', [[('str', 't2'), ('int', 't3')]] + [[] for _ in range(n_ds - 1)]), ('tuple', [[] for _ in range(n_ds)]),
+             ('list', [[] for _ in range(n_ds + 1)]), ('list', [])]
+    for spec in fixed + [cfg_gen_spec(rng, n_ds) for _ in range(ctx.budget(40, 300))]:
+        cfg_one(ctx, env, st, gen, spec, 'set', exprs, checks)
+    for spec in [None] + fixed + [cfg_gen_spec(rng, n_ds) for _ in range(ctx.budget(12, 80))]:
+        cfg_one(ctx, env, st, gen, spec, 'init', exprs, checks)
+
+
+def compare_cfg(ctx, kind, case, impl, v):
+    cc = {'part': 'F', 'mode': case['mode'], 'spec': case['spec']}
+    tolist = lambda x: [[[bool(a), bool(b), int(c)] for (a, b, c) in d] for d in x]   # noqa: E731
+    try:
+        if kind == 'cfg':
+            r, stored = v
+            m = [['Ok'] if (r == ('Ok', 'tt') or r == 'Ok' or (isinstance(r, tuple) and r[0] == 'Ok')) else ['Err', r[1]], tolist(stored)]
+        else:
+            m = ['Ok', tolist(v[1])] if v[0] == 'Ok' else ['Err', v[1]]
+    except Exception as ex:  # noqa: BLE001
+        m = ['unparsed', repr(v)[:200], str(ex)]
+    if m != impl:
+        ctx.disagree('signal_generator.ranges_config', cc, impl, m)
+
+
 # =========================================================================== driver
 def evaluate(ctx, name, exprs, checks):
     if not exprs:
@@ -1648,6 +1789,8 @@ def evaluate(ctx, name, exprs, checks):
             compare_reloc(ctx, case, impl, v)
         elif kind == 'analysis':
             compare_analysis(ctx, case, impl, v)
+        elif kind in ('cfg', 'cfg-init'):
+            compare_cfg(ctx, kind, case, impl, v)
         else:
             compare_mc(ctx, case, impl, v)
 
@@ -1663,6 +1806,7 @@ def run(ctx):
     run_counts(ctx, CountsEnv(), exprs, checks)
     run_relocation(ctx, exprs, checks)
     run_sites(ctx, exprs, checks)
+    run_config(ctx, exprs, checks)
     evaluate(ctx, 'c18a', exprs, checks)
     exprs, checks = [], []
     env = McEnv()
@@ -1719,6 +1863,9 @@ def replay(ctx, rp):
             check_counts_predicates(ctx, case, impl)
             exprs.append(counts_term(c['ws'], c['D'], c['mean'], rs.batches, bool(c.get('poisson'))))
             checks.append(('counts', case, impl))
+        evaluate(ctx, 'c18r', exprs, checks)
+    elif c.get('part') == 'F' and 'mode' in c:
+        run_config(ctx, exprs, checks, only=c)
         evaluate(ctx, 'c18r', exprs, checks)
     elif c.get('part') == 'B' and 'dss' in c:
         run_mc_case(ctx, McEnv(), c, exprs, checks)
